@@ -13,3 +13,14 @@ register(Adapter("IENA", lambda: iena.IENA(), IENA_FIELDS, types=[iena.IENA]))
 register(Adapter("MParameter", None, ["paramid", "delay", "dataset"], types=[iena.MParameter],
                  build=lambda d: iena.MParameter(**d)))
 register(Adapter("IENAM", lambda: iena.IENAM(), IENA_FIELDS + ["parameters"], types=[iena.IENAM]))
+
+import time as _time
+from ..core import FUNCS
+def _iena_time(ts, us, soy):
+    o = iena.IENA()
+    real_soy = int(_time.mktime(o._startOfYear.timetuple()))
+    if real_soy != soy:
+        raise RuntimeError("start of year changed between generation and execution")
+    o.setPacketTime(ts, us)
+    return [o.timeusec, o._getPacketTime()]
+FUNCS["iena.time"] = _iena_time
